@@ -3,6 +3,7 @@ package main
 
 import (
 	"fmt"
+	"os"
 	"strings"
 
 	"github.com/prometheus/common/model"
@@ -42,7 +43,12 @@ func sigs(entries []discovery.Entry, shiftLine, shiftCol int) (out []ruleSig, ok
 	return out, ok
 }
 
+// priorFile is the file parsed right before the next parse (lib/pipeline.PriorFiles; 0 = the neutral one).
+var priorFile int
+
 func parse(content string, strict bool) ([]discovery.Entry, bool) {
+	pipeline.Prime(priorFile)
+	priorFile = 0
 	entries, crash := pipeline.Parse("rules.yml", []byte(content), strict, parser.PrometheusSchema, model.UTF8Validation)
 	return entries, crash == nil
 }
@@ -251,6 +257,12 @@ func wrappers(c *explore.Chooser) *explore.Case {
 	}
 	input := map[string]any{"base": bi, "wrappers": applied, "file": text, "line_shift": shiftL, "column_shift": shiftC}
 	cs := &explore.Case{Input: input, Key: text, Trivial: len(applied) == 0, Outcome: fmt.Sprintf("depth=%d", len(applied))}
+	// the wrapped file is parsed after one of five other files: nothing of an earlier parse may reach it
+	priorFile = c.Free(len(pipeline.PriorFiles), "file-parsed-before")
+	if priorFile > 0 {
+		input["file_parsed_before"] = pipeline.PriorFiles[priorFile]
+		cs.Key = fmt.Sprint(priorFile) + text
+	}
 	we, ok := parse(text, false)
 	if !ok {
 		cs.Violate("relaxed-crash", "relaxed parse crashed on a wrapped rule list", input)
@@ -271,6 +283,10 @@ func first(a []string) string {
 }
 
 func main() {
+	// one P per worker: pooled objects released by one parse reach the next one deterministically
+	if os.Getenv("VERIF_WORKER_GOMAXPROCS") == "" {
+		os.Setenv("VERIF_WORKER_GOMAXPROCS", "1")
+	}
 	k := func(t string) int {
 		if t == "thorough" {
 			return 3
@@ -279,7 +295,7 @@ func main() {
 	}
 	explore.Main(&explore.Config{
 		Property: "C19", Level: "exploration",
-		Rule:        "(i) every strict-valid document among the styled (17 scalar styles x layouts) and semantic (all field deviations) generators with <=k deviations (k=2 quick, 3 thorough): strict parse vs relaxed parse, compared on kind, name, expr, line range and every position range of every field; (ii) 7 rule lists (3 with a physical line of 4090-4095 bytes, just under a 4 KiB buffer) x every wrapper sequence of depth<=4 over {mapping key (indent 0/2/4, incl. a key named rules), sequence item, sibling keys before/after (scalar, block text, flow seq), groups wrapper} x {extra document before/after, leading ---} x {no second rule list, one under a sibling key, one in a document of its own}: relaxed parse of the wrapped file vs relaxed parse of the bare list displaced by the wrapper's line and column shift. distinct = distinct file bytes",
+		Rule:        "(i) every strict-valid document among the styled (17 scalar styles x layouts) and semantic (all field deviations) generators with <=k deviations (k=2 quick, 3 thorough): strict parse vs relaxed parse, compared on kind, name, expr, line range and every position range of every field; (ii) 7 rule lists (3 with a physical line of 4090-4095 bytes, just under a 4 KiB buffer) x every wrapper sequence of depth<=4 over {mapping key (indent 0/2/4, incl. a key named rules), sequence item, sibling keys before/after (scalar, block text, flow seq), groups wrapper} x {extra document before/after, leading ---} x {no second rule list, one under a sibling key, one in a document of its own} x 5 files parsed before in the same process: relaxed parse of the wrapped file vs relaxed parse of the bare list displaced by the wrapper's line and column shift. distinct = distinct file bytes",
 		Assumptions: []string{"documents that are not strict-valid are outside clause (i) and counted as trivial"},
 		Spaces: []*explore.Space{
 			{Name: "modes-styled", Bound: k, Body: modes(func(c *explore.Chooser) (string, []string, bool) {
